@@ -7,7 +7,7 @@ CONC = 'mutual exclusion of std::sync::RwLock (each ActivePeers method body is o
 PROPERTIES = {
     'C04': dict(
         units=['active_peers', 'enum_cm'],
-        extra=[validate.history_c04, validate.mutual_dial_inflight],
+        extra=[validate.history_c04, validate.mutual_dial_inflight, validate.backpressure_service],
         canaries=['active_peers'],
         scope='every clause of C04 for every SEQUENTIAL history of operations on the active-peer set: each real mutating function is '
               'proved equal to a spec transition from an arbitrary pre-state; lemmas prove that every transition preserves the '
@@ -65,7 +65,7 @@ PROPERTIES = {
         units=['wire', 'kani_wire', 'timeout', 'kani_timeout', 'enum_cm', 'active_peers'],
         canaries=['wire', 'streams', 'active_peers'],
         counterexample=cex.cex_c06,
-        extra=[validate.decode_sweep, validate.hostile_streams, validate.hostile_requests],
+        extra=[validate.decode_sweep, validate.hostile_streams, validate.hostile_requests, validate.backpressure_service],
         scope='NARROW: every function anemo itself runs on attacker-controlled bytes before the user service is called returns an error instead '
               'of panicking, for every byte string: read_version_frame (Kani, all inputs), read_request / read_response, from_raw, Version::new, '
               'StatusCode::new, try_parse_timeout, both Timeout::call, and BiStreamRequestHandler::handle swallows the error so only that stream ends. '
@@ -153,7 +153,7 @@ PROPERTIES = {
     'C09': dict(
         units=['active_peers', 'enum_cm'],
         canaries=['active_peers', 'dialing'],
-        extra=[validate.history_c09, validate.panicking_handler],
+        extra=[validate.history_c09, validate.panicking_handler, validate.silent_peer_loss],
         scope='ONE sentence of three: an explicit disconnect removes the peer locally at once (one critical section), closes that connection and appends exactly '
               'LostPeer(peer, Requested); afterwards peer(p) is None and rpc(p, _) fails until a new connection is registered; every way a connection can end is mapped '
               'to its documented reason and a handler exit removes exactly its own entry.',
